@@ -115,6 +115,20 @@ def generate(repo):
     except Exception as ex:
         items["cached_dim_guard"] = "miss:%s" % ex
 
+    fallback = False
+    try:
+        ok = []
+        _, body = find_fn(impl, "search_with_post_filter")
+        ok.append(bool(re.search(r"if\s+filtered\.len\(\)\s*<\s*top_k\s*&&\s*saturated\s*\{\s*return\s+Ok\(self\.search_with_pre_filter\(", body))
+                  and bool(re.search(r"let\s+saturated\s*=\s*candidates\.len\(\)\s*>=\s*oversample_k\s*;", body)))
+        _, body = find_fn(impl, "search_filtered_in_collection")
+        ok.append(bool(re.search(r"if\s+filtered\.len\(\)\s*<\s*top_k\s*&&\s*saturated\s*\{\s*pre_filter\(\)", body))
+                  and bool(re.search(r"let\s+saturated\s*=\s*candidates\.len\(\)\s*>=\s*oversample_k\s*;", body)))
+        fallback = all(ok)
+        items["post_filter_fallback"] = "translated"
+    except Exception as ex:
+        items["post_filter_fallback"] = "miss:%s" % ex
+
     arms = "\n".join("  | %d => %s" % (mid, "true" if inv.get(mid) else "false") for mid, _, _ in MUTATORS)
     names = "\n".join("   %d %s" % (mid, fn) for mid, fn, _ in MUTATORS)
     text = HEADER + (
@@ -127,6 +141,9 @@ def generate(repo):
         "Definition gen_eps_bits : N := %d.\nDefinition gen_thr_num : N := %d.\nDefinition gen_thr_den : N := %d.\n"
         "(* search_similar / search_in_collection: the cached branch requires the query to have the indexed dimension *)\n"
         "Definition gen_cached_dim_guard : bool := %s.\n"
-        % (names, arms, keep, eps, num, den, "true" if guard else "false")
+        "(* search_with_post_filter / search_filtered_in_collection: too few matches among the oversampled\n"
+        "   candidates while more were cut off => exact search over the matching embeddings *)\n"
+        "Definition gen_post_filter_fallback : bool := %s.\n"
+        % (names, arms, keep, eps, num, den, "true" if guard else "false", "true" if fallback else "false")
     )
     return text, items
